@@ -226,6 +226,11 @@ def run_c10(tier, seed, pid="C10"):
     nrand = 150 if tier == "quick" else 2500
     for _ in range(nrand):
         scenarios.append((rng.choice(GENS), rand_tree(rng), rng.choice(DIR_STATES), "api"))
+    # two-struct trees (duplicate names included) written as main + front/limits.fcp + rear/limits.fcp, through the command
+    two = [o["tree"] for o in trees if len(o["tree"]["structs"]) == 2 and not o["tree"]["enums"] and grammar_can_express(o["tree"])]
+    dup = [t for t in two if t["structs"][0]["name"] == t["structs"][1]["name"]]
+    for t in rng.sample(dup, min(12 if tier == "quick" else 120, len(dup))) + rng.sample(two, min(12 if tier == "quick" else 120, len(two))):
+        scenarios.append((rng.choice(GENS), t, rng.choice(["unrelated", "clash"]), "cli-files"))
     # a pre-existing file that starts with exactly what the plug-in returns and continues with a stale tail
     good = [o["tree"] for o in trees if o["dbc"] == 1 and o["can_c"] == 1 and any(im["protocol"] == "can" for im in o["tree"]["impls"])]
     for t in rng.sample(good, min(10 if tier == "quick" else 80, len(good))):
@@ -268,7 +273,27 @@ def run_c10(tier, seed, pid="C10"):
                 os.utime(os.path.join(out, name), ns=(10 ** 18, 10 ** 18))
         else:
             prepare_dir(out, ds, gen)
-        if via == "cli":
+        if via == "cli-files":
+            # the schema spread over files: each struct in a module of its own, both called limits.fcp, in two directories
+            try:
+                root = os.path.join(chk.workdir, "multi")
+                shutil.rmtree(root, ignore_errors=True)
+                parts = {"front/limits.fcp": glue.schema_text({"structs": tree["structs"][:1]}),
+                         "rear/limits.fcp": glue.schema_text({"structs": tree["structs"][1:]})}
+                rest = glue.schema_text({k: tree.get(k, []) for k in ("enums", "impls", "services", "devices")}).split("\n")
+                parts["main.fcp"] = "\n".join(rest[:1] + ["", "mod front.limits;", "mod rear.limits;"] + rest[1:])
+                for relp, text in parts.items():
+                    os.makedirs(os.path.dirname(os.path.join(root, relp)), exist_ok=True)
+                    with open(os.path.join(root, relp), "w") as f:
+                        f.write(text)
+                path = os.path.join(root, "main.fcp")
+            except Exception:
+                continue
+            obs = run_call(gen, path, out, "cli")
+            from fcp.parser import get_fcp
+            if get_fcp(path).is_err() and not any(e["op"] == "verify" for e in obs["events"]):
+                continue          # rejected by the front end itself: not the gate's business
+        elif via == "cli":
             try:
                 text = glue.schema_text(tree)
                 path = os.path.join(chk.workdir, "schema.fcp")
@@ -300,6 +325,26 @@ def run_c10(tier, seed, pid="C10"):
             traces.append({"id": tid, "gen": g, "registered": list(reg), "tree": t, "fs0": fs_json(obs["fs0"]), "fs1": fs_json(obs["fs1"]),
                            "events": obs["events"], "ret": obs["ret"], "files": obs["files"]})
             meta[tid] = (g, t, "unrelated/manager-reused-after-%s" % g1 if k else "unrelated", "api", obs)
+    # ONE parsed object generated, then edited in place (into another tree of the catalogue) and generated again - with the same
+    # generator and a fresh manager each time: the gate decides on the tree as it is at the time of the call
+    bad_general = [o["tree"] for o in trees if o["general"] == 0]
+    nedit = 40 if tier == "quick" else 400
+    for i in range(nedit):
+        t1 = rng.choice(both_ok)
+        t2 = rng.choice(bad_general if i % 2 == 0 else only_c + only_dbc + bad_general)
+        g = rng.choice(GENS)
+        obj = build.mk_fcp(t1)
+        for k, t in enumerate((t1, t2)):
+            if k == 1:
+                fresh = build.mk_fcp(t2)
+                for attr in ("structs", "enums", "impls", "services", "devices"):
+                    getattr(obj, attr)[:] = getattr(fresh, attr)
+            prepare_dir(out, "unrelated" if k == 0 else rng.choice(["unrelated", "clash"]), g)
+            obs = run_call(g, obj, out, "api")
+            tid = "e%d-%d" % (i, k)
+            traces.append({"id": tid, "gen": g, "registered": [g], "tree": t, "fs0": fs_json(obs["fs0"]), "fs1": fs_json(obs["fs1"]),
+                           "events": obs["events"], "ret": obs["ret"], "files": obs["files"]})
+            meta[tid] = (g, t, "object-edited-in-place-after-a-successful-generate" if k else "unrelated", "api", obs)
     shutil.rmtree(out, ignore_errors=True)
     # canaries
     cans = []
